@@ -6,6 +6,7 @@ from loccheck import *
 import extract_loc
 
 A = {"code": "(1)", "verif_tmpl": {"t": "lit", "v": 1}}
+EFFECT = {"code": js_of_tmpl({"t": "addfact", "id": "made", "fact": {"by": "action"}}), "verif_tmpl": {"t": "addfact", "id": "made", "fact": {"by": "action"}}}
 MUTATING = {"addFact", "remFact", "addRule", "remRule", "enableRule", "setParents", "clear"}
 REVEALING = {"getFact", "search", "getRule", "searchRules", "listRules", "getParents", "ruleEnabled", "size", "event", "query"}
 
@@ -35,7 +36,8 @@ def gen_case(rng, thorough):
     ops = [
         {"op": "addFact", "id": "f1", "fact": {"k": 1, "w": "y"}},
         {"op": "addFact", "id": "f2", "fact": {"k": 2}},
-        {"op": "addRule", "id": "r1", "rule": {"when": {"pattern": {"go": "?x"}}, "action": A}},
+        # a rule whose action writes through Env.AddFact: it runs with the caller's context, so it needs the caller's write key
+        {"op": "addRule", "id": "r1", "rule": {"when": {"pattern": {"go": "?x"}}, "actions": [A, EFFECT]}},
     ]
     wk = rk = None
     if prot in ("write", "both", "write+ro"):
@@ -107,6 +109,8 @@ def main():
                 ck.violation("%s served although the location is %s and the caller has %s key (%s state): %s" % (op["op"], prot, caller, c["state"], canon(o)[:200]), rp, tag="served")
             elif must_refuse and op["op"] in MUTATING and canon(before) != canon(after):
                 ck.violation("%s was refused (%s) but state or storage changed (%s state)" % (op["op"], o.get("err"), c["state"]), rp, tag="sideeffect")
+            elif op["op"] == "event" and not refused and (ro or not has_w) and canon((before or {}).get("facts", {}).get("made")) != canon((after or {}).get("facts", {}).get("made")):
+                ck.violation("a rule action wrote a fact through Env.AddFact although the caller of ProcessEvent has no write access (%s location, caller %s, %s state)" % (prot, caller, c["state"]), rp, tag="action")
             elif not must_refuse and refused and o.get("err") in ("writeDenied", "readDenied", "readOnly", "disabled"):
                 ck.violation("%s refused (%s) although the caller presented the right keys on a %s location (%s state)" % (op["op"], o.get("err"), prot, c["state"]), rp, tag="refused")
     lr.stats["matrix_cells"] = len(matrix)
